@@ -74,7 +74,7 @@ func grtFollow(prop string) []string {
 	return genesisRTFollow
 }
 
-var longHistoryProps = map[string]bool{"C01": true, "C06": true, "C08": true, "C09": true, "C11": true, "C13": true}
+var longHistoryProps = map[string]bool{"C01": true, "C06": true, "C08": true, "C09": true, "C11": true} // not C13: its claim-order drain hook branches by store rollback, which is what a thousand-version store cannot afford
 
 var longHistoryChains = [][]string{
 	{"empty", "gap_1d", "bond_lp1_D", "unbond_lp2_half", "llp_close_half_t1", "llp_open_t1_x2_again", "perp_close_half_t1", "perp_bot_close_all", "llp_bot_close_all", "mc_claim_lp1", "swap_in_p1_usdc_atom_L", "cfg_llp_fallback_on", "empty", "gap_1d"},
